@@ -82,11 +82,15 @@ def rule_t12(report, prog):
             for c in cs:
                 together = (x in cfg.reachable(c, avoid_nodes=ev['F'])) or (c in cfg.reachable(x, avoid_nodes=ev['F']))
                 order_ok = c in cfg.reachable(x) and x not in cfg.reachable(c)
-                report.check((not together) and order_ok, 'C02-R2',
-                             key(q, 'commit byte FF is flushed alone after the 16-bit length is on the tag'), f.loc(c.ast),
-                             'the marker byte FFh and the 16-bit length are stored in the same flush (marker first): the flush writes '
-                             'units in ascending order and the TLV offset need not be aligned, so a cut between two units leaves '
-                             'L=FFh followed by stale length bytes -- a non-zero length that is neither old nor new')
+                okk = (not together) and order_ok
+                mode = 'marker and length in one flush' if together else 'marker flushed before the length bytes'
+                base = key(q, 'commit byte FF is flushed alone after the 16-bit length is on the tag')
+                report.check(okk, 'C02-R2', base if okk else key(base, mode), f.loc(c.ast),
+                             ('the marker byte FFh and the 16-bit length are stored in the same flush (marker first): the flush writes '
+                              'units in ascending order and the TLV offset need not be aligned, so a cut between two units leaves '
+                              'L=FFh followed by stale length bytes -- a non-zero length that is neither old nor new') if together else
+                             ('the marker byte FFh is written to the tag before the 16-bit length: a cut between the two flushes leaves L=FFh followed '
+                              'by the old length bytes -- a non-zero length over new data'))
 
 
 def rule_writeback(report, prog):
@@ -181,6 +185,16 @@ def rule_t4(report, prog):
             reach = cfg.reachable(tn[0], avoid_nodes=fin, avoid_edges=[(tn[0], 'false')], labels_excluded=('exc',))
             report.check(cfg.exit not in reach, 'C02-R5', key(f.qname, 'chunked write always ends with the NLEN update'), f.loc(),
                          'a chunked write can return without writing NLEN')
+    # the branch "whole file in one command" is taken when NLEN + data fit MLc; UPDATE BINARY must then really send that much: its chunk
+    # limit is MLc and nothing smaller (a second, tighter limit splits the "single" command and the real NLEN goes out first)
+    ub = prog.func('nfc.tag.tt4.Type4Tag.NDEF._update_binary')
+    binds = [norm(st.value) for st in walk_no_nested(ub.node) if isinstance(st, (ast.Assign, ast.AugAssign)) and
+             any(isinstance(x, ast.Name) and x.id == 'max_data' for x in ast.walk(st.targets[0] if isinstance(st, ast.Assign) else st.target))]
+    cond = [norm(i.test) for i in walk_no_nested(f.node) if isinstance(i, ast.If) and 'self._max_lc' in norm(i.test)]
+    okk = binds == ['min(self._max_lc, len(data))'] and cond == ['len(nlen) + len(data) <= self._max_lc']
+    report.check(okk, 'C02-R5', key(ub.qname, 'chunk limit of UPDATE BINARY is the MLc the single-command branch tests'), ub.loc(),
+                 'the writer decides "one command" by %s but _update_binary limits a chunk by %s: a write taken for atomic is split, the first '
+                 'command already carries the final NLEN' % (cond, binds))
     w = prog.func('nfc.tag.tt4.Type4Tag.NDEF._wipe_ndef_data')
     wc = cfg_of(w)
     z = [n for n in wc.nodes if n.kind == 'stmt' and n.ast is not None and norm(n.ast) == 'self._update_binary(0, nlen)']
